@@ -5,7 +5,7 @@ From SZ Require Import Lib.Py Gen.Reader Spec.Container Proofs.Default.
 Open Scope Z_scope.
 
 (* Default layout: reading inline il issues exactly ONE range read: the contiguous bytes of the units
-   (il/4, *, *), i.e. the inline set of 4 lines -- nothing else, nothing twice. *)
+   (il/4, any, any), i.e. the inline set of 4 lines -- nothing else, nothing twice. *)
 Theorem C07_inline_default_layout : forall H, wf3 H = true -> default_layout H -> forall il, 0 <= il < s_nil H ->
   exists v, rd_read_inline H il = Return v /\
     av_reads v = [(s_ub3 H * unit_index3 H (il / 4) 0 0, s_ub3 H * ((s_PX H / 4) * (s_PZ H / 4)))].
